@@ -95,7 +95,8 @@ def make_value(v, src=None, label=None):
     if k == "s":
         return SourceObject(v[1], source, **kw)
     if k == "tz":
-        return SourceObject(pytz.timezone(v[1]), source, **kw)
+        from efsim.gen import timezone_of
+        return SourceObject(timezone_of(v[1]), source, **kw)
     if k == "h":
         start = datetime.strptime(v[1], "%Y-%m-%d %H:%M:%S")
         df = create_hourly_usage_df_from_list([float(x) for x in v[2]], start_date=start, pint_unit=u(v[3]).units)
